@@ -521,6 +521,7 @@ func runC16(r *Run) {
 	checkAdapterSpecifics(r)
 	checkSuicideZeroes(r, "C16.suicide")
 	checkDirtyCount(r, "C16.dirtycount")
+	checkAccessListFlags(r)
 }
 
 // ---------------------------------------------------------------------------------------------
